@@ -1,0 +1,21 @@
+//go:build !verif
+
+// Package verifhook provides instrumentation points for the external
+// verification harness. Without the "verif" build tag every function is an
+// empty, inlinable no-op.
+package verifhook
+
+// Enabled reports whether the instrumentation is compiled in.
+const Enabled = false
+
+// Point marks a named boundary between two persistence / delivery steps.
+func Point(name string) {}
+
+// LockWait marks that the caller is about to block on the named lock.
+func LockWait(name string) {}
+
+// LockHeld marks that the caller has acquired the named lock.
+func LockHeld(name string) {}
+
+// LockFree marks that the caller has released the named lock.
+func LockFree(name string) {}
